@@ -8,7 +8,7 @@ Section Thm.
   Variable tab : digtab.
   Variable ops : list wop.
   Variable sched : list sstep.
-  Let s := run true ac tab ops sched.
+  Let s := run true false ac tab ops sched.
 
   Definition all_finished (w : world) : Prop := forall x, In x (ws w) -> w_out x <> None.
   Definition committed_seqs (w : world) : list N := flat_map cseqs (commits w).
@@ -61,11 +61,11 @@ Qed.
    (409, 403, storage error, CAS mismatch, cancelled push) leaves the document exactly as it was.  Holds for
    the unrepaired code as well ([fixed] arbitrary). *)
 Lemma store_changes_only_by_ack fixed ac tab s e :
-  st (step fixed ac tab s e) <> st s ->
+  st (step fixed false ac tab s e) <> st s ->
   exists i w p, e = Write i /\ nth_error (ws s) i = Some w /\ w_prep w = Some p /\ w_out w = None /\
-    st (step fixed ac tab s e) = p_doc p /\ p_cas p = d_cas (st s) /\
-    nth_error (ws (step fixed ac tab s e)) i =
-      Some {| w_op := w_op w; w_attempt := w_attempt w; w_docseq := 0; w_unusedseqs := []; w_prep := None;
+    st (step fixed false ac tab s e) = p_doc p /\ p_cas p = d_cas (st s) /\
+    nth_error (ws (step fixed false ac tab s e)) i =
+      Some {| w_op := w_op w; w_attempt := w_attempt w; w_matchrev := w_matchrev w; w_docseq := 0; w_unusedseqs := []; w_prep := None;
               w_out := Some (OAck (p_rev p) (d_seq (p_doc p))) |}.
 Proof.
   destruct e as [i|i]; cbn [step]; destruct (nth_error (ws s) i) as [w|] eqn:Hn; try congruence;
@@ -76,7 +76,7 @@ Proof.
     | |- context[match ?x with _ => _ end] => destruct x; cbn [st finish_failed]
     | |- context[if ?x then _ else _] => destruct x; cbn [st finish_failed]
     end; reflexivity.
-  - unfold write. destruct (p_cas p =? d_cas (st s)) eqn:Ec; [|cbn; congruence].
+  - unfold write, write_gate. cbn [andb]. rewrite orb_false_r. destruct (p_cas p =? d_cas (st s)) eqn:Ec; [|cbn; congruence].
     destruct (w_fail_write (w_op w)); cbn [finish_failed st]; [congruence|]. intros _.
     exists i, w, p. repeat split; auto; [apply N.eqb_eq, Ec|]. cbn [ws]. eapply nth_error_set_nth_eq; eauto.
 Qed.
@@ -93,7 +93,7 @@ Definition leak_sched : list sstep :=
   [Prepare 0; Write 0; Prepare 1; Prepare 2; Write 2; Write 1; Prepare 1; Prepare 3; Write 3; Prepare 4; Write 4; Write 1; Prepare 1]%nat.
 
 Lemma unrepaired_leaks :
-  let s := run false true leak_tab leak_ops leak_sched in
+  let s := run false false true leak_tab leak_ops leak_sched in
   (forall x, In x (ws s) -> w_out x <> None) /\ 2 <= last s /\
   ~ In 2 (flat_map cseqs (commits s) ++ released s ++ flat_map wcar (ws s)).
 Proof.
@@ -104,6 +104,51 @@ Proof.
 Qed.
 
 Lemma repaired_same_schedule_accounts :
-  let s := run true true leak_tab leak_ops leak_sched in
+  let s := run true false true leak_tab leak_ops leak_sched in
   In 2 (released s).
 Proof. vm_compute. tauto. Qed.
+
+(* ---------- the faithful storage layer: resurrection of a tombstone is not compare-and-swap ---------- *)
+(* [no_stale_resurrection]: along the run, the unchecked resurrection write never fires where the compare-and-swap
+   would have failed, i.e. no live revision is written over a tombstone that changed since it was read.  Under
+   this hypothesis the faithful model ([resurrect_unchecked = true]) and the intended discipline coincide, so
+   every theorem above transfers to the code as it is. *)
+Fixpoint gates_agree (fixed ac : bool) (tab : digtab) (s : world) (sched : list sstep) : Prop :=
+  match sched with
+  | [] => True
+  | e :: r => step fixed true ac tab s e = step fixed false ac tab s e /\
+              gates_agree fixed ac tab (step fixed false ac tab s e) r
+  end.
+Definition no_stale_resurrection (fixed ac : bool) (tab : digtab) (ops : list wop) (sched : list sstep) : Prop :=
+  gates_agree fixed ac tab (init_world ops) sched.
+
+Lemma faithful_run_eq fixed ac tab ops sched :
+  no_stale_resurrection fixed ac tab ops sched -> run fixed true ac tab ops sched = run fixed false ac tab ops sched.
+Proof.
+  unfold no_stale_resurrection, run. generalize (init_world ops) as s.
+  induction sched as [|e r IH]; intros s H; cbn [fold_left gates_agree] in *; [reflexivity|].
+  destruct H as (H1 & H2). rewrite H1. apply IH, H2.
+Qed.
+
+(* known finding (C05_Refuted.v): a live revision written over a tombstone overwrites a concurrent acknowledged
+   tombstone revision.  Writer 0 pushes a tombstoned document [2-18, 1-17]; writer 1 prepares a live child of
+   2-18; writer 2's deletion of 2-18 commits in between; writer 1's resurrection write is not CAS-checked and
+   replaces the stored document by one built from the stale snapshot: writer 2's acknowledged revision is gone
+   and the stored sequence went backwards. *)
+Definition res_ops : list wop :=
+  [ {| w_tag := 1; w_parent := None; w_deleted := true; w_push := [(2, 18); (1, 17)]; w_reject := false; w_fail_after := []; w_fail_write := false |};
+    {| w_tag := 2; w_parent := Some (2, 18); w_deleted := false; w_push := []; w_reject := false; w_fail_after := []; w_fail_write := false |};
+    {| w_tag := 3; w_parent := Some (2, 18); w_deleted := true; w_push := []; w_reject := false; w_fail_after := []; w_fail_write := false |} ].
+Definition res_tab : digtab := [((2, Some (2, 18)), 132); ((3, Some (2, 18)), 330)].
+Definition res_sched : list sstep := [Prepare 0; Write 0; Prepare 1; Prepare 2; Write 2; Write 1]%nat.
+
+Lemma unchecked_resurrection_loses_acked_write :
+  let s := run true true true res_tab res_ops res_sched in
+  exists w, nth_error (ws s) 2 = Some w /\ w_out w = Some (OAck (3, 330) 3) /\
+            has_rev (d_tree (st s)) (3, 330) = false /\ d_seq (st s) = 2.
+Proof. vm_compute. eexists. repeat split; reflexivity. Qed.
+
+Lemma checked_resurrection_keeps_it :
+  let s := run true false true res_tab res_ops res_sched in
+  has_rev (d_tree (st s)) (3, 330) = true /\ d_seq (st s) = 3.
+Proof. vm_compute. auto. Qed.
